@@ -1,18 +1,24 @@
 import Cbor.Drv.GenOps
+import Cbor.Drv.ModelOps
 /-! `cbordrv`: one operation per input line, one canonical result line per operation. -/
 
-def step (line : String) : String :=
+def step (L : Nat) (line : String) : String :=
   let ws := (line.trimAscii.toString.splitOn " ").filter (· ≠ "")
   match Drv.genOp ws with
   | some out => out
-  | none => "bad-op"
+  | none =>
+    match Drv.modelOp L ws with
+    | some out => out
+    | none => "bad-op"
 
-partial def loop (h : IO.FS.Stream) (out : IO.FS.Stream) : IO Unit := do
+partial def loop (L : Nat) (h : IO.FS.Stream) (out : IO.FS.Stream) : IO Unit := do
   let line ← h.getLine
   if line.isEmpty then return ()
-  out.putStrLn (step line)
-  loop h out
+  out.putStrLn (step L line)
+  loop L h out
 
-def main : IO Unit := do
+/-- optional argument: the decoding-stack limit `L` the model is run with (default 2048) -/
+def main (args : List String) : IO Unit := do
   let out ← IO.getStdout
-  loop (← IO.getStdin) out
+  let L := (args.head?.bind String.toNat?).getD 2048
+  loop L (← IO.getStdin) out
